@@ -26,6 +26,12 @@ CLAIMED = {
  "C11": ("Two freshly wired modules receive the same drawn packet; one starts with arbitrary coins on the orbiter account (transferred denom and another denom), the other with none: equal acknowledgement class; on success equal balance deltas for every account but orbiter / dust collector, equal bridge requests and forwarded amounts, equal exported statistics; the prior coins of the transferred denom are exactly what the dust collector gained, nothing is left on the orbiter account, the other denom stays where it was.",
          "Bounds: fee lists 0..1 quick / 0..2 thorough. Send restrictions of other modules on the sweep are outside the claim.",
          "DESIGN.md §3 C11"),
+ "C05": ("Per route, the real Forwarder.HandlePacket -> controller -> bridge model with FULLY symbolic attributes (uint32 domains, byte fields of arbitrary length 0..33 and content, hook metadata classes, arbitrary gas limit and max fee) and the transfer attributes as left by arbitrary pre-actions (source A, destination D, 0 < D <= A): executed iff the attributes are valid for that route; exactly one request reaches exactly the model of the protocol named by the identifier and every request field equals the payload's field; amount / denom are the POST-action coin; sender is the orbiter account; DepositForBurnWithCaller iff a caller is given; custom hook nil iff empty; the Hyperlane token query names the payload's token. Plus every (protocol id incl. out-of-enum numbers x attribute type incl. none) and (action id x attribute type) combination: refused with zero requests unless identifier and type agree and a controller exists; and ReplaceDepositForBurn with arbitrary blobs reaches CCTP with exactly its fields and the orbiter account as owner.",
+         "Bounds: byte fields 0..33 bytes (33 = one past the only accepted length), Hyperlane domains in [0,10) quick plus [10^9, 2^32) thorough and the two refused Noble domains, custom hook from three shapes quick / fully symbolic thorough, replace blobs <= 8 / 64 bytes. depinject.go wiring is outside the claim. Relative to the bridge models (which also mirror the warp keeper's panics on invalid max fee).",
+         "DESIGN.md §3 C05"),
+ "C06": ("The real dispatcher, executor and forwarder with the real fee controller and a denomination-changing harness controller registered under ACTION_SWAP: every action list over {FEE, SWAP} of length 0..2 and four lists repeating an identifier, arbitrary amount, bps and swapped coin. Each stage saw exactly the coin left by its predecessor (the swap's recorded input; the fee computed on and paid in the running coin), the forwarding request carries exactly the coin left by the last action, the source coin never changes, and a payload repeating an identifier is refused before any controller runs.",
+         "Bounds: lists of length <= 2 (3 for repeated ids), amounts < 10^60, bps in [1,10000]. Internal route only (the one that carries any denomination).",
+         "DESIGN.md §3 C06"),
  "C08": ("The real forwarder Msg and Query servers and the real middleware receive path on the wired module, against a reference model of the two pause sets: (step) from an ARBITRARY pause state one admin message of any kind, any protocol name (valid, unsupported, unknown, empty) and any batch of arbitrary counterparty strings — result error iff the reference says redundant/invalid, batches all-or-nothing (under E1 rollback), one event per accepted message, every pause query equals the reference sets; (enforce) from an arbitrary pause state a transfer to a symbolic destination over each route through OnRecvPacket is executed iff neither its protocol nor its (protocol, counterparty) pair is paused, else error ack and no bridge request; (history) sequences of messages from the empty state followed by a probe; (limit) batches of exactly 100 and 101 identifiers.",
          "Bounds: counterparty strings <= 1-2 bytes quick / 2-3 bytes thorough (IBC ids from {channel-0, channel-1, invalid}), batches 1..2 / 1..3, up to 1 / 2 pre-paused pairs plus any subset of paused protocols, histories of 2 / 3 messages, probe domains < 1000. Empty batches (which pause the whole protocol) are outside the claim. Collections are summarised as association lists incl. the SDK default page size of 100; paging is not decided.",
          "DESIGN.md §3 C08"),
